@@ -32,6 +32,30 @@ pub fn vx_set_token_text(tokens: &mut Tokens, i: usize, s: String)
         final(tokens)@[i as int].0 == old(tokens)@[i as int].0, final(tokens)@[i as int].1@ == s@,
 { tokens[i].1 = s; }
 
+// tokens[i].0 = s  (IndexMut + field assignment)
+#[verifier::external_body]
+pub fn vx_set_token_tag(tokens: &mut Tokens, i: usize, s: String)
+    requires i < old(tokens)@.len()
+    ensures final(tokens)@.len() == old(tokens)@.len(),
+        forall|k: int| 0 <= k < old(tokens)@.len() && k != i ==> final(tokens)@[k] == old(tokens)@[k],
+        final(tokens)@[i as int].1 == old(tokens)@[i as int].1, final(tokens)@[i as int].0@ == s@,
+{ tokens[i].0 = s; }
+pub open spec fn in_words(v: Seq<usize>, k: int) -> bool { exists|j: int| 0 <= j < v.len() && #[trigger] v[j] as int == k }
+#[verifier::external_body]
+pub fn vx_vec_contains(v: &Vec<usize>, x: &usize) -> (r: bool) ensures r == in_words(v@, *x as int) { v.contains(x) }
+pub proof fn lemma_in_words_push(v: Seq<usize>, x: usize)
+    ensures forall|k: int| #[trigger] in_words(v.push(x), k) == (in_words(v, k) || k == x as int),
+{
+    assert forall|k: int| #[trigger] in_words(v.push(x), k) == (in_words(v, k) || k == x as int) by {
+        if in_words(v, k) { let j = choose|j: int| 0 <= j < v.len() && #[trigger] v[j] as int == k; assert(v.push(x)[j] as int == k); }
+        if k == x as int { assert(v.push(x)[v.len() as int] as int == k); }
+        if in_words(v.push(x), k) { let j = choose|j: int| 0 <= j < v.push(x).len() && #[trigger] v.push(x)[j] as int == k; if j < v.len() { assert(v[j] as int == k); } }
+    }
+}
+pub proof fn lemma_quote_lit() ensures "\""@ == seq!['"'], "\""@.len() == 1 { reveal_strlit("\""); assert("\""@ =~= seq!['"']); }
+pub open spec fn has_op(s: Seq<char>) -> bool { s.contains('|') || s.contains('&') || s.contains('<') || s.contains('>') }
+//@FN has_operator_char
+
 pub uninterp spec fn spec_should_dollar(t: Seq<char>) -> bool;
 #[verifier::external_body]
 pub fn should_do_dollar_command_extension(line: &str) -> (r: bool) ensures r == spec_should_dollar(line@) { unimplemented!() }
@@ -45,10 +69,21 @@ pub struct VxCap { pub g1: String, pub g2: String, pub g3: String }
 // number of $(..) substitutions still to do in a word. ASSUMED: one replace step removes one (false when the inserted output itself
 // contains "$(" : the inserted text is scanned again, see the rescanning note in DESIGN)
 pub uninterp spec fn spec_subst_count(t: Seq<char>) -> nat;
+// the word text before the first `$(` and after the last `)` (groups head / tail of the pattern)
+pub uninterp spec fn spec_sub_head(t: Seq<char>) -> Seq<char>;
+pub uninterp spec fn spec_sub_tail(t: Seq<char>) -> Seq<char>;
+// s with every `$` doubled (str::replace('$', "$$"))
+pub uninterp spec fn tmpl_escape(s: Seq<char>) -> Seq<char>;
+#[verifier::external_body]
+pub fn vx_escape_dollar(s: &str) -> (r: String) ensures r@ == tmpl_escape(s@) { s.replace('$', "$$") }
 impl VxRegex {
+    // Regex::replace with a replacement TEMPLATE. ASSUMED (regex crate; validated on a bounded set by axcheck): with the pattern
+    // (?P<head>[^$]*)\$\(.+\)(?P<tail>.*) and the template "${head}" + X + "${tail}", where X is some text o with every `$` doubled,
+    // the result is head(text) + o + tail(text): `$$` is the template's spelling of a literal `$`, nothing else in o is special.
     #[verifier::external_body]
     pub fn replace(&self, text: &str, to: &str) -> (r: String)
-        ensures spec_should_dollar(text@) ==> spec_subst_count(r@) < spec_subst_count(text@)
+        ensures spec_should_dollar(text@) ==> spec_subst_count(r@) < spec_subst_count(text@),
+            forall|o: Seq<char>| to@ == "${head}"@ + #[trigger] tmpl_escape(o) + "${tail}"@ ==> r@ == spec_sub_head(text@) + o + spec_sub_tail(text@),
     { unimplemented!() }
     #[verifier::external_body]
     pub fn is_match(&self, t: &str) -> (r: bool) ensures r == spec_dot_match(t@) { unimplemented!() }
@@ -62,16 +97,22 @@ impl VxRegex {
 pub fn vx_clone_cap(c: &VxCap) -> (r: VxCap) ensures r.g1@ == c.g1@, r.g2@ == c.g2@, r.g3@ == c.g3@ { unimplemented!() }
 
 // ghost: how many inner commands were planned and run
-pub ghost struct SubLog { pub planned: int, pub ran: int }
+// op_words: the unquoted words into which an inner command's output brought an operator character (C13)
+pub ghost struct SubLog { pub planned: int, pub ran: int, pub op_words: Set<int> }
 impl CommandLine {
     #[verifier::external_body]
     pub fn from_line(line: &str, sh: &mut Shell, Tracked(lg): Tracked<&mut SubLog>) -> (r: Result<CommandLine, String>)
-        ensures final(lg).planned == old(lg).planned + 1, final(lg).ran == old(lg).ran
+        ensures final(lg).planned == old(lg).planned + 1, final(lg).ran == old(lg).ran, final(lg).op_words == old(lg).op_words
     { unimplemented!() }
 }
+// ghost bookkeeping only: record that word k received an operator character from an output
+#[verifier::external_body]
+pub proof fn note_op_word(tracked lg: &mut SubLog, k: int)
+    ensures final(lg).op_words == old(lg).op_words.insert(k), final(lg).planned == old(lg).planned, final(lg).ran == old(lg).ran
+{ unimplemented!() }
 #[verifier::external_body]
 pub fn run_pipeline(sh: &mut Shell, cl: &CommandLine, tty: bool, capture: bool, log_cmd: bool, Tracked(lg): Tracked<&mut SubLog>) -> (r: (bool, CommandResult))
-    ensures final(lg).ran == old(lg).ran + 1, final(lg).planned == old(lg).planned
+    ensures final(lg).ran == old(lg).ran + 1, final(lg).planned == old(lg).planned, final(lg).op_words == old(lg).op_words
 { unimplemented!() }
 #[verifier::external_body]
 pub fn vx_take_terminal_back() { unimplemented!() }
@@ -89,6 +130,9 @@ COMMON_RW = [
     Rw(r'for \(i, text\) in buff\.iter\(\) \{', 'let __entries = vx_um_entries(&buff); for (i, text) in __entries.iter() {', regex=True, rule='R12',
        why='HashMap iteration through a snapshot shim: every entry once, unspecified order'),
     Rw(r'tokens\[\*i\]\.1 = (.*?);', r'vx_set_token_text(tokens, *i, \1);', regex=True, rule='R12'),
+    Rw(r'tokens\[\*i\]\.0 = (.*?);', r'vx_set_token_tag(tokens, *i, \1);', regex=True, rule='R12', required=False,
+       why='IndexMut + tuple-field assignment through a shim (frame: only that token tag changes)'),
+    Rw('data_words.contains(&idx)', 'vx_vec_contains(&data_words, &idx)', required=False, rule='R12', why='Vec::contains through a shim with its std contract'),
     Rw(r'if term_given \{', 'if term_given { vx_take_terminal_back(); }', regex=True, balanced=True, rule='R8',
        why='unsafe { give_terminal_to(getpgid(0)) } after the inner pipeline (terminal hand-back: see C07)'),
     Rw('core::run_pipeline(', 'run_pipeline(', rule='R0'),
@@ -98,38 +142,90 @@ COMMON_RW = [
 
 def frame(cond_old):
     return ('final(tokens)@.len() == old(tokens)@.len() && forall|k: int| 0 <= k < old(tokens)@.len() ==> '
-            '(#[trigger] final(tokens)@[k]).0@ == old(tokens)@[k].0@ && (!(' + cond_old + ') ==> final(tokens)@[k].1@ == old(tokens)@[k].1@)')
+            '((#[trigger] final(tokens)@[k]).0@ == old(tokens)@[k].0@ || (old(tokens)@[k].0@.len() == 0 && final(tokens)@[k].0@ == "\\""@ && (' + cond_old + '))) '
+            '&& (!(' + cond_old + ') ==> final(tokens)@[k].1@ == old(tokens)@[k].1@)')
+
+
+def data_clause():
+    """C13: every unquoted word that received an operator character from an output is tagged as double-quoted afterwards"""
+    return ('final(tokens)@ == old(tokens)@ || (forall|k: int| #[trigger] final(lg).op_words.contains(k) ==> old(lg).op_words.contains(k) || '
+            '(0 <= k < final(tokens)@.len() && final(tokens)@[k].0@ == "\\""@))')
 
 
 DCOND = 'T.0@ != "\'"@ && T.0@ != "\\\\"@ && spec_should_dollar(T.1@)'
+EXIT_HINT = ('assert forall|k: int| lg.op_words.contains(k) && !old(lg).op_words.contains(k) implies in_words(data_words@, k) by {} '
+             'assert forall|k: int| in_words(data_words@, k) implies 0 <= k < tokens@.len() && tokens@[k].0@ == "\\""@ by { '
+             'let j = choose|j: int| 0 <= j < data_words@.len() && #[trigger] data_words@[j] as int == k; assert(tokens@[data_words@[j] as int].0@ == "\\""@); } '
+             'assert forall|k: int| #[trigger] lg.op_words.contains(k) implies old(lg).op_words.contains(k) || (0 <= k < tokens@.len() && tokens@[k].0@ == "\\""@) by { '
+             'if !old(lg).op_words.contains(k) { assert(in_words(data_words@, k)); } }')
+OPS = 'forall|k: int| lg.op_words.contains(k) ==> old(lg).op_words.contains(k) || in_words(data_words@, k)'
+
+
+def words_inv(tok, bound, cond):
+    return ('forall|j: int| 0 <= j < data_words@.len() ==> (#[trigger] data_words@[j]) < %s && %s[data_words@[j] as int].0@.len() == 0 && (%s)'
+            % (bound, tok, cond.replace('T', '%s[data_words@[j] as int]' % tok)))
+
+
+def frame_inv(cond):
+    c_old = cond.replace('T', 'old(tokens)@[k]')
+    return ('tokens@.len() == old(tokens)@.len() && forall|k: int| 0 <= k < tokens@.len() ==> '
+            '((#[trigger] tokens@[k]).0@ == old(tokens)@[k].0@ || (old(tokens)@[k].0@.len() == 0 && tokens@[k].0@ == "\\""@ && (' + c_old + '))) '
+            '&& (!(' + c_old + ') ==> tokens@[k].1@ == old(tokens)@[k].1@)')
+
+
 dollar = Fn(S, 'do_command_substitution_for_dollar', props=('C11',),
     pre_rewrites=COMMON_RW + [
         Rw(r'let re;[^{};]*if let Ok\(x\) = Regex::new\(ptn\) \{', 'let re = match vx_regex_new(ptn) { Ok(x) => x, Err(_) => { return; } }; VXELSE', regex=True, balanced=True, rule='R6',
            why='Regex::new(ptn) through a shim; same early return on failure'),
         Rw(r'VXELSE[^{};]*else \{', '', regex=True, balanced=True, rule='R6'),
+        Rw('''output_txt.replace('$', "$$")''', 'vx_escape_dollar(&output_txt)', rule='R12', required=False,
+           why="str::replace('$', \"$$\") through a shim (every `$` doubled)"),
     ],
     add_params='Tracked(lg): Tracked<&mut SubLog>',
     ghost_args={'from_line': 'Tracked(lg)', 'run_pipeline': 'Tracked(lg)'},
+    hints={'after-call:replace':
+           'LABEL:C11.dollar.step_inserts_the_output_literally_between_head_and_tail: '
+           'assert(result@ == spec_sub_head(line_@) + spec_trim(cmd_result.stdout@) + spec_sub_tail(line_@));',
+           # ghost record, taken from the data flow (not from the code's own flag): this word received an operator character from an output
+           'after-call:vx_trim': 'if has_op(spec_trim(cmd_result.stdout@)) && sep@.len() == 0 { note_op_word(lg, idx as int); }',
+           'before-text:data_words.push(idx);': 'lemma_in_words_push(data_words@, idx);',
+           'loop-3-body-entry': 'lemma_quote_lit();',
+           'loop-3-exit': EXIT_HINT},
     ensures=[
         ('C11+C13+C01.dollar.only_unquoted_words_with_a_substitution_change', frame(DCOND.replace('T', 'old(tokens)@[k]'))),
         ('C11.dollar.inner_command_run_once_per_planning', 'final(lg).ran - old(lg).ran <= final(lg).planned - old(lg).planned'),
+        ('C13.dollar.operator_characters_of_an_output_are_data', data_clause()),
     ],
     loops={
         0: Loop(invariant=[
             ('C11.inv.dollar.idx', 'idx == __I && tokens@ == old(tokens)@ && lg.ran - old(lg).ran <= lg.planned - old(lg).planned'),
             ('C11+C13.inv.dollar.buff', 'forall|kk: int| umap(buff).contains_key(kk) ==> 0 <= kk < __I && ' + DCOND.replace('T', 'tokens@[kk]')),
+            ('C13.inv.dollar.words', words_inv('tokens@', '__I', DCOND)),
+            ('C13.inv.dollar.ops', OPS),
         ]),
-        1: Loop(invariant=[('C11.inv.dollar.once', 'lg.ran - old(lg).ran <= lg.planned - old(lg).planned')], decreases='spec_subst_count(line@)'),
+        1: Loop(invariant=[
+            ('C11.inv.dollar.once', 'lg.ran - old(lg).ran <= lg.planned - old(lg).planned'),
+            ('C13.inv.dollar.ops_inner', 'forall|k: int| lg.op_words.contains(k) ==> old(lg).op_words.contains(k) || in_words(data_words@, k) || (k == idx as int && got_operator && sep@.len() == 0)'),
+        ], decreases='spec_subst_count(line@)'),
         2: Loop(invariant=[
             ('C11+C13.inv.dollar.frame', 'tokens@.len() == old(tokens)@.len() && forall|k: int| 0 <= k < tokens@.len() ==> (#[trigger] tokens@[k]).0@ == old(tokens)@[k].0@ '
                                          '&& (!(' + DCOND.replace('T', 'old(tokens)@[k]') + ') ==> tokens@[k].1@ == old(tokens)@[k].1@)'),
             ('C11+C13.inv.dollar.entries', 'forall|i: int| 0 <= i < __entries@.len() ==> (#[trigger] __entries@[i]).0 < tokens@.len() && ' + DCOND.replace('T', 'old(tokens)@[__entries@[i].0 as int]')),
             ('C11.inv.dollar.once2', 'lg.ran - old(lg).ran <= lg.planned - old(lg).planned'),
+            ('C13.inv.dollar.words2', words_inv('old(tokens)@', 'tokens@.len()', DCOND)),
+            ('C13.inv.dollar.ops2', OPS),
+        ]),
+        3: Loop(invariant=[
+            ('C11+C13.inv.dollar.frame3', frame_inv(DCOND)),
+            ('C13.inv.dollar.tagged', 'forall|j: int| 0 <= j < __I ==> tokens@[(#[trigger] data_words@[j]) as int].0@ == "\\""@'),
+            ('C13.inv.dollar.words3', words_inv('old(tokens)@', 'tokens@.len()', DCOND)),
+            ('C13.inv.dollar.ops3', '(' + OPS + ') && lg.ran - old(lg).ran <= lg.planned - old(lg).planned'),
         ]),
     },
 )
 
 DCOND2 = 'T.0@ == "`"@ || ((T.0@ == "\\""@ || T.0@.len() == 0) && spec_dot_match(T.1@))'
+CUR = 'idx < tokens@.len() && tokens@ == old(tokens)@ && sep@ == tokens@[idx as int].0@ && (sep@ == "\\""@ || sep@.len() == 0) && spec_dot_match(tokens@[idx as int].1@)'
 dot = Fn(S, 'do_command_substitution_for_dot', props=('C11',),
     pre_rewrites=COMMON_RW + [
         Rw(r'let re;[^{};]*if let Ok\(x\) = Regex::new\((r"[^"]*")\) \{', r'let re = match vx_regex_new(\1) { Ok(x) => x, Err(_) => { return; } }; VXELSE', regex=True, balanced=True, rule='R6',
@@ -141,29 +237,51 @@ dot = Fn(S, 'do_command_substitution_for_dot', props=('C11',),
     add_params='Tracked(lg): Tracked<&mut SubLog>',
     ghost_args={'from_line': 'Tracked(lg)', 'run_pipeline': 'Tracked(lg)'},
     loop_kinds={2: 'value', (2, 'clone'): 'vx_clone_cap(&{})'},
+    hints={'after-call:vx_trim': 'if has_op(spec_trim(cr.stdout@)) && sep@.len() == 0 { note_op_word(lg, idx as int); }',
+           'before-text:data_words.push(idx);': 'lemma_in_words_push(data_words@, idx);',
+           'loop-0-body-entry': 'reveal_strlit("`"); assert("`"@.len() == 1);',
+           'loop-4-body-entry': 'lemma_quote_lit();',
+           'loop-4-exit': EXIT_HINT},
     ensures=[
         ('C11+C13+C01.dot.only_backquoted_or_embedded_backquote_words_change', frame(DCOND2.replace('T', 'old(tokens)@[k]'))),
         ('C11.dot.inner_command_run_once_per_planning', 'final(lg).ran - old(lg).ran <= final(lg).planned - old(lg).planned'),
+        ('C13.dot.operator_characters_of_an_output_are_data', data_clause()),
     ],
     loops={
         0: Loop(invariant=[
             ('C11.inv.dot.idx', 'idx == __I && tokens@ == old(tokens)@ && lg.ran - old(lg).ran <= lg.planned - old(lg).planned'),
             ('C11+C13.inv.dot.buff', 'forall|kk: int| umap(buff).contains_key(kk) ==> 0 <= kk < __I && (' + DCOND2.replace('T', 'tokens@[kk]') + ')'),
+            ('C13.inv.dot.words', words_inv('tokens@', '__I', DCOND2)),
+            ('C13.inv.dot.ops', OPS),
         ]),
-        1: Loop(invariant=[('C11.inv.dot.once', 'lg.ran - old(lg).ran <= lg.planned - old(lg).planned')],
+        1: Loop(invariant=[('C11.inv.dot.once', 'lg.ran - old(lg).ran <= lg.planned - old(lg).planned'),
+                           ('C13.inv.dot.cur', CUR),
+                           ('C13.inv.dot.words_l1', words_inv('tokens@', 'idx + 1', DCOND2)),
+                           ('C13.inv.dot.ops_l1', OPS)],
                 invariant_except_break=[('C11.inv.dot.tail', 'true')], decreases='_token@.len()'),
         2: Loop(invariant=[('C11.inv.dot.once2', 'lg.ran - old(lg).ran <= lg.planned - old(lg).planned && (forall|q: int| 0 <= q < __V@.len() ==> (#[trigger] __V@[q]).g3@.len() < _token@.len()) '
-                                               '&& (__I > 0 ==> _tail@.len() < _token@.len())')]),
+                                               '&& (__I > 0 ==> _tail@.len() < _token@.len())'),
+                           ('C13.inv.dot.cur2', CUR),
+                           ('C13.inv.dot.words_l2', words_inv('tokens@', 'idx + 1', DCOND2)),
+                           ('C13.inv.dot.ops_l2', OPS)]),
         3: Loop(invariant=[
             ('C11+C13.inv.dot.frame', 'tokens@.len() == old(tokens)@.len() && forall|k: int| 0 <= k < tokens@.len() ==> (#[trigger] tokens@[k]).0@ == old(tokens)@[k].0@ '
                                       '&& (!(' + DCOND2.replace('T', 'old(tokens)@[k]') + ') ==> tokens@[k].1@ == old(tokens)@[k].1@)'),
             ('C11+C13.inv.dot.entries', 'forall|i: int| 0 <= i < __entries@.len() ==> (#[trigger] __entries@[i]).0 < tokens@.len() && (' + DCOND2.replace('T', 'old(tokens)@[__entries@[i].0 as int]') + ')'),
             ('C11.inv.dot.once3', 'lg.ran - old(lg).ran <= lg.planned - old(lg).planned'),
+            ('C13.inv.dot.words3', words_inv('old(tokens)@', 'tokens@.len()', DCOND2)),
+            ('C13.inv.dot.ops3', OPS),
+        ]),
+        4: Loop(invariant=[
+            ('C11+C13.inv.dot.frame4', frame_inv(DCOND2)),
+            ('C13.inv.dot.tagged', 'forall|j: int| 0 <= j < __I ==> tokens@[(#[trigger] data_words@[j]) as int].0@ == "\\""@'),
+            ('C13.inv.dot.words4', words_inv('old(tokens)@', 'tokens@.len()', DCOND2)),
+            ('C13.inv.dot.ops4', '(' + OPS + ') && lg.ran - old(lg).ran <= lg.planned - old(lg).planned'),
         ]),
     },
 )
 
-UNIT = Unit('U-EXP3', TEMPLATE, fns=[dollar, dot, Fn('src/types.rs', 'new', impl='CommandResult')],
+UNIT = Unit('U-EXP3', TEMPLATE, fns=[common.has_operator_fn(), dollar, dot, Fn('src/types.rs', 'new', impl='CommandResult')],
             types=[TypeItem('src/types.rs', 'struct', 'Command'), TypeItem('src/types.rs', 'struct', 'CommandLine'), TypeItem('src/types.rs', 'struct', 'CommandResult')],
             props=('C11', 'C13', 'C01', 'C05'))
 TRUSTED = common.TRUSTED_STR + common.TRUSTED_TOKEN + [
